@@ -619,6 +619,58 @@ Swallows(n, o) ==
             /\ \A j \in 1 .. i - 1 : ~(Validate(nd.ms[j], x.o).ok /\ Eval(nd.ms[j], x.o).ok)
             /\ Validate(nd.ms[i], x.o).ok /\ ~Eval(nd.ms[i], x.o).ok
 
+\* C10: the nodes that validate(n, o) EVALUATES (not merely validates): only what is needed to choose a
+\* branch -- switch / overload dispatches, bind and case sources, case conditions, Map iterables -- and a
+\* present option itself (validation of a present option is its evaluation).  An upper bound as well.
+RECURSIVE ValRuns(_, _)
+OptValRuns(m, o) == IF m = 0 THEN {} ELSE ValRuns(m, o)
+NodesOf(vs) == {x.n : x \in vs}
+ValRuns(n, o) ==
+    LET nd == NodeRec(n) IN
+    CASE nd.k \in {"val", "allopts"} -> {}
+      [] nd.k = "opt" -> IF Has(nd.p, o) THEN NodesOf(Visit(n, o)) ELSE OptValRuns(nd.d, o) \cup OptValRuns(nd.dom, o)
+      [] nd.k = "pred" -> ValRuns(nd.arg, o)
+      [] nd.k = "tmpl" -> UNION {ValRuns(nd.ps[i].n, o) : i \in 1 .. Len(nd.ps)}
+      [] nd.k = "apply" -> ValRuns(nd.src, o) \cup OptValRuns(nd.fp, o)
+      [] nd.k = "bind" ->
+            LET s == Eval(nd.src, o) IN
+            ValRuns(nd.src, o) \cup NodesOf(Visit(nd.src, o)) \cup
+            (IF ~s.ok THEN {} ELSE LET hit == TabFind(nd.lk, s.v) tgt == IF hit # 0 THEN hit ELSE nd.other IN OptValRuns(tgt, o))
+      [] nd.k = "switch" ->
+            LET dv == Eval(nd.d, o) IN
+            NodesOf(Visit(nd.d, o)) \cup
+            (IF ~dv.ok THEN OptValRuns(nd.dflt, o)
+             ELSE IF ~Hashable(dv.v) THEN {}
+             ELSE LET hit == TabFind(nd.lk, dv.v) IN OptValRuns(IF hit # 0 THEN hit ELSE nd.dflt, o))
+      [] nd.k = "case" ->
+            LET dv == Eval(nd.d, o) IN
+            ValRuns(nd.d, o) \cup NodesOf(Visit(nd.d, o)) \cup
+            (IF ~dv.ok THEN {}
+             ELSE LET RECURSIVE Go(_)
+                      Go(i) == IF i > Len(nd.cases) THEN OptValRuns(nd.dflt, o)
+                               ELSE LET c == Eval(nd.cases[i].c, o) IN
+                                    NodesOf(Visit(nd.cases[i].c, o)) \cup
+                                    (IF ~c.ok \/ PredRaises(c.v, dv.v) THEN {}
+                                     ELSE IF PredHolds(c.v, dv.v) THEN ValRuns(nd.cases[i].n, o) ELSE Go(i + 1))
+                  IN Go(1))
+      [] nd.k = "coalesce" ->
+            LET RECURSIVE Go(_)
+                Go(i) == IF i > Len(nd.ms) THEN {}
+                         ELSE ValRuns(nd.ms[i], o) \cup (IF Validate(nd.ms[i], o).ok THEN {} ELSE Go(i + 1))
+            IN Go(1)
+      [] nd.k = "coll" -> UNION {ValRuns(nd.ms[i], o) : i \in 1 .. Len(nd.ms)}
+      [] nd.k = "map" ->
+            LET cs == MapCombos(nd, o) IN
+            UNION {NodesOf(Visit(nd.its[i].n, o)) : i \in 1 .. Len(nd.its)} \cup
+            (IF ~cs.ok THEN {} ELSE UNION {ValRuns(nd.inner, Mix(o, cs.v[c].nested)) : c \in 1 .. Len(cs.v)})
+      [] nd.k = "with" -> ValRuns(nd.inner, Overlay(nd, o))
+      [] nd.k = "cached" -> ValRuns(nd.inner, o)
+      [] nd.k = "ds" ->
+            LET o2 == DsOptions(nd, o)
+                sel == DsSelect(nd, o2) IN
+            (IF nd.disp = 0 THEN {} ELSE NodesOf(Visit(nd.disp, o2))) \cup (IF sel.ok THEN ValRuns(sel.n, o2) ELSE {})
+      [] nd.k = "fnapp" -> UNION {ValRuns(nd.args[i], o) : i \in 1 .. Len(nd.args)}
+
 \* permitted body runs per dataset node in ONE evaluation with cold caches: one per distinct demand
 Permit(n, o) ==
     LET ds == Dem(n, o)
